@@ -49,6 +49,10 @@ MixedCases == UNION {UNION {UNION {{[fam |-> "mixed", gk |-> gk, bad |-> b, good
 \* a MODULE without any measurement / calibration object (a "structure" module): USER_RIGHTS holds a GROUP, the GROUP
 \* holds FUNCTIONs directly, through a sub-group or through a sub-function; one FUNCTION and one GROUP are unused
 NoObjCases == {[fam |-> "noobj", via |-> v, unused |-> u] : v \in {"function_list", "sub_function", "sub_group"}, u \in BOOLEAN}
+\* a group / function all of whose members dangle (it is empty once they are dropped), alone or as the only sub-group /
+\* sub-function of a parent; held: referenced from outside
+AllDanglingCases == UNION {{[fam |-> "alldangling", gk |-> gk, bad |-> b, held |-> h, parent |-> p] : b \in MemberSitesOf(gk), h \in BOOLEAN, p \in BOOLEAN} :
+                             gk \in {"GROUP", "FUNCTION"}}
 IsMeasSite(s) == s \in {"GROUP/REF_MEASUREMENT.identifier_list", "FUNCTION/IN_MEASUREMENT.identifier_list",
                         "FUNCTION/LOC_MEASUREMENT.identifier_list", "FUNCTION/OUT_MEASUREMENT.identifier_list"}
 
@@ -95,6 +99,12 @@ ModuleOf(x) ==
         \o <<El("FUNCTION", "f1", 30, IF x.via = "sub_function" THEN <<<<"FUNCTION/SUB_FUNCTION.identifier_list", <<"f2">>>>>> ELSE <<>>),
               El("FUNCTION", "f2", 31, <<>>)>>
         \o (IF x.unused THEN <<El("FUNCTION", "f_unused", 32, <<>>), El("GROUP", "g_unused", 22, <<>>)>> ELSE <<>>)
+    ELSE IF x.fam = "alldangling" THEN
+        <<El(x.gk, "g1", 20, <<<<x.bad, <<"missing1", "missing2">>>>>>), El("CHARACTERISTIC", "c0", 60, <<>>)>>
+        \o (IF x.parent THEN <<El(x.gk, "p1", 21, <<<<ChainSite(x.gk), <<"g1">>>>>>)>> ELSE <<>>)
+        \o (IF ~x.held THEN <<>>
+            ELSE IF x.gk = "GROUP" THEN <<El("USER_RIGHTS", "user0", 41, <<<<"USER_RIGHTS/REF_GROUP.identifier_list", <<"g1">>>>>>)>>
+            ELSE <<El("MEASUREMENT", "m1", 52, <<<<"MEASUREMENT/FUNCTION_LIST.name_list", <<"g1">>>>>>)>>)
     ELSE IF x.fam = "mixed" THEN
         <<El(x.gk, "g1", 20, <<<<x.bad, <<"missing1", "missing2">>>>, <<x.good, <<"x0">>>>>>),
           El(IF IsMeasSite(x.good) THEN "MEASUREMENT" ELSE "CHARACTERISTIC", "x0", 60, <<>>)>>
@@ -110,9 +120,10 @@ Flat(M) == [elems |-> [i \in 1..Len(M) |-> <<NsOfKind[M[i].kind], M[i].kind, M[i
             refs |-> SetToSeq(FlatRefs(M))]
 
 Init == sc = [stage |-> 0]
-Next == \/ sc.stage = 0 /\ \E f \in {"site", "chain", "member", "mixed", "noobj"} : sc' = [stage |-> 1, fam |-> f]
+Next == \/ sc.stage = 0 /\ \E f \in {"site", "chain", "member", "mixed", "noobj", "alldangling"} : sc' = [stage |-> 1, fam |-> f]
         \/ sc.stage = 1 /\ \E x \in (IF sc.fam = "site" THEN SiteCases ELSE IF sc.fam = "chain" THEN ChainCases
-                                      ELSE IF sc.fam = "mixed" THEN MixedCases ELSE IF sc.fam = "noobj" THEN NoObjCases ELSE MemberCases) :
+                                      ELSE IF sc.fam = "mixed" THEN MixedCases ELSE IF sc.fam = "noobj" THEN NoObjCases
+                                      ELSE IF sc.fam = "alldangling" THEN AllDanglingCases ELSE MemberCases) :
                                sc' = [stage |-> 2, x |-> x]
 Spec == Init /\ [][Next]_sc
 
